@@ -236,7 +236,49 @@ def hashseed_suite(ctx):
                 break
 
 
+def continuation_suite(ctx):
+    """a multi-level description resolved in two sittings: the molecule the first block resolves to (a coarse level) is
+    handed, as a graph object, to from_graph together with the remaining block — the result is the molecule the whole
+    string resolves to"""
+    import re
+    from cgsmiles.resolve import MoleculeResolver
+    rng = ctx.rng('continuation')
+    for _ in range(ctx.budget(25, 300)):
+        case = gen_levels.hier_case(rng, levels=1)
+        continuation_check(ctx, case)
+
+
+def continuation_check(ctx, case):
+    import re
+    from cgsmiles.resolve import MoleculeResolver
+    if True:
+        blocks = re.findall(r"\{[^\}]+\}", case['s'])
+        if len(blocks) != 3:
+            return
+        aa = case.get('all_atom', True)
+        try:
+            with lib.quiet():
+                _, ref = MoleculeResolver.from_string(case['s'], last_all_atom=aa).resolve_all()
+                _, middle = MoleculeResolver.from_string('.'.join(blocks[:2]), last_all_atom=False).resolve()
+        except Exception:   # noqa: BLE001
+            ctx.count('continuation', nontrivial=False)
+            return
+        ctx.count('continuation', lib.stable_hash(case['s']), sample=case['s'])
+        c = {'kind': 'continuation', 's': case['s'], 'all_atom': aa}
+        try:
+            with lib.quiet():
+                _, got = MoleculeResolver.from_graph(blocks[2], middle, last_all_atom=aa).resolve()
+        except Exception as err:   # noqa: BLE001
+            ctx.fail(c, f'from_graph on the molecule the first block resolves to raised {type(err).__name__}: {str(err)[:70]}')
+            return
+        nm = (lambda a, b: a.get('element') == b.get('element')) if aa else (lambda a, b: a.get('atomname') == b.get('atomname'))
+        if not nx.is_isomorphic(ref, got, node_match=nm, edge_match=lambda a, b: a.get('order') == b.get('order')):
+            ctx.fail(c, f'resolving in two sittings (first block, then from_graph with the rest) gives {len(got)} atoms / '
+                        f'{got.number_of_edges()} bonds, the whole string {len(ref)} / {ref.number_of_edges()}')
+
+
 def run(ctx):
+    continuation_suite(ctx)
     rng = ctx.rng('resolve')
     for i in range(ctx.budget(300, 6000)):
         if ctx.out_of_time():
@@ -264,7 +306,10 @@ def corpus_case(ctx, payload):
 def replay(payload):
     import check
     ctx = check.Ctx(PROP, 'quick', 0)
-    suites.run_resolve_case(ctx, 'replay', payload['case'], oracle=numbering_oracle, compare=False)
+    if payload['case'].get('kind') == 'continuation':
+        continuation_check(ctx, payload['case'])
+    else:
+        suites.run_resolve_case(ctx, 'replay', payload['case'], oracle=numbering_oracle, compare=False)
     for c, what, _ in ctx.failures:
         print('FAILS:', what)
     print('input:', payload['case'].get('s'), '(history / hash-seed failures: re-run ./check C12 quick with the recorded seed)')
